@@ -50,7 +50,7 @@ CHECKS = {
    text="Proved: insert_dups / insert_nodups (balanced, sorted, in-order list = positional insertion after equal keys, EXISTS names the existing element, height growth flag exact), remove_spec (balanced, in-order list = old minus exactly that node: other nodes keep identity, key and order), "
         "avl_height_bound (fib(h+2) <= size+1), find_spec (<= height comparisons; found iff stored), postorder_perm_inorder (free destroys each once), inv_new/inv_insert/inv_remove; history level (Properties/C06History.lean): tree_refines_spec (every history from zix_tree_new, duplicates on or off, allocation refused or not, yields exactly the outputs and the element list of an abstract sorted (multi)set), spec_sorted_and_size, spec_elements_stable, reachable_find_bound (c comparisons in a reachable tree of n elements: fib(c+2) <= n+1, i.e. c <= 1.44 log2(n+2)). Tie: after every call the whole shape "
         "(node id, key, balance, parent), size and comparator-call count are compared with the implementation; the harness checks iterator stability, destroy-once, callback user data, allocator balance, and the proved comparison bound on every find (so a lost balance is API-visible).",
-   note="Parent-pointer stepping (iter_next/prev) is compared through full forward/backward walks, not modelled as pointer code.", ref="§5 C06"),
+   note="The parent-pointer iterators are transcribed as the loops of tree.c over the node table (left/right/parent of every node, which is what the harness compares after every call) and proved to step through the in-order sequence (Properties/C06Iter.lean: next_is_successor, prev_is_predecessor, begin_is_first, rbegin_is_last, forward_walk, backward_walk, reachable_walks).", ref="§5 C06"),
  "C01": dict(cat="proof", tech="Lean 4 theorems (sorted-set refinement of insert and remove by induction over the tree, lifted to every operation history under an arbitrary allocation oracle; WF invariant; height bound; comparison count; clear) and white-box correspondence on five builds",
    text="Proved for every valid page geometry (INODE_VALS = LEAF_VALS/2 >= 3), every element and every allocation-failure oracle: insert_refines / insert_success_iff_absent, remove_refines, find_refines, clear_destroys_each_once, and for every history "
         "btree_wf_invariant and btree_refines_sorted_set (statuses, contents = strictly ascending set, size = cardinality); btree_height_bound and btree_depth_le_maxHeight (height <= MAX_HEIGHT below a computed capacity; default build: >= 2^43 elements, from the regenerated geometry); "
